@@ -495,6 +495,8 @@ class String:
 
         level = md.level
         if level > 200:
+            if pushed:
+                md._pop(pushed)
             raise SystemError('infinite recursion in document template')
         md.level = level + 1
 
